@@ -79,9 +79,13 @@ bufferevent_unsuspend_read_(struct bufferevent *bufev, bufferevent_suspend_flags
 {
 	struct bufferevent_private *bufev_private = BEV_UPCAST(bufev);
 	BEV_LOCK(bufev);
-	bufev_private->read_suspended &= ~what;
-	if (!bufev_private->read_suspended && (bufev->enabled & EV_READ))
-		bufev->be_ops->enable(bufev, EV_READ);
+	if (bufev_private->read_suspended) {
+		/* Only re-enable on a real suspended->running transition: a
+		 * no-op call must not restart the read timeout. */
+		bufev_private->read_suspended &= ~what;
+		if (!bufev_private->read_suspended && (bufev->enabled & EV_READ))
+			bufev->be_ops->enable(bufev, EV_READ);
+	}
 	BEV_UNLOCK(bufev);
 }
 
@@ -101,9 +105,12 @@ bufferevent_unsuspend_write_(struct bufferevent *bufev, bufferevent_suspend_flag
 {
 	struct bufferevent_private *bufev_private = BEV_UPCAST(bufev);
 	BEV_LOCK(bufev);
-	bufev_private->write_suspended &= ~what;
-	if (!bufev_private->write_suspended && (bufev->enabled & EV_WRITE))
-		bufev->be_ops->enable(bufev, EV_WRITE);
+	if (bufev_private->write_suspended) {
+		/* See bufferevent_unsuspend_read_(). */
+		bufev_private->write_suspended &= ~what;
+		if (!bufev_private->write_suspended && (bufev->enabled & EV_WRITE))
+			bufev->be_ops->enable(bufev, EV_WRITE);
+	}
 	BEV_UNLOCK(bufev);
 }
 
